@@ -449,8 +449,8 @@ Qed.
 (* -- all selected rows of a set of series *)
 Definition allrows (q : query) (ms : list series) : list row := flat_map (fun s => filter (row_selected q s) (snd s)) ms.
 
-Lemma raw_items_flat : forall q aggs ms,
-  flat_map (raw_items q aggs) ms = filter has_value (map (raw_item q aggs) (allrows q ms)).
+Lemma raw_items_flat : forall kf q aggs ms,
+  flat_map (raw_items kf q aggs) ms = filter has_value (map (raw_item kf aggs) (allrows q ms)).
 Proof.
   intros. unfold allrows, raw_items. induction ms as [|s ms IH]; [reflexivity|].
   cbn [flat_map]. rewrite map_app, filter_app, IH. reflexivity.
@@ -472,26 +472,27 @@ Proof.
   rewrite P. destruct (key (fst r) =? k); reflexivity.
 Qed.
 
-Lemma vfold_raw : forall q aggs k rows,
-  vfold (rowop aggs) k (filter has_value (map (raw_item q aggs) rows)) =
-  mfold (lift (rowop aggs)) None (map (row_opt aggs) (filter (fun r : row => bkey q (fst r) =? k) rows)).
+Lemma vfold_raw : forall (kf : Z -> Z) aggs k rows,
+  vfold (rowop aggs) k (filter has_value (map (raw_item kf aggs) rows)) =
+  mfold (lift (rowop aggs)) None (map (row_opt aggs) (filter (fun r : row => kf (fst r) =? k) rows)).
 Proof.
-  intros q aggs k. induction rows as [|r rows IH]; [reflexivity|].
-  cbn [map filter]. change (has_value (raw_item q aggs r)) with (hvr aggs r).
+  intros kf aggs k. induction rows as [|r rows IH]; [reflexivity|].
+  cbn [map filter]. change (has_value (raw_item kf aggs r)) with (hvr aggs r).
   destruct (hvr aggs r) eqn:E.
   - rewrite vfold_cons, IH. unfold at_key, raw_item. cbn [fst snd].
-    destruct (bkey q (fst r) =? k); [|reflexivity].
+    destruct (kf (fst r) =? k); [|reflexivity].
     cbn [map mfold fold_right]. unfold row_opt at 2. now rewrite E.
-  - rewrite IH. destruct (bkey q (fst r) =? k); [|reflexivity].
+  - rewrite IH. destruct (kf (fst r) =? k); [|reflexivity].
     cbn [map mfold fold_right]. unfold row_opt at 2. now rewrite E.
 Qed.
 
-Definition rows_at (q : query) (ms : list series) (k : Z) : list row :=
-  filter (fun r : row => bkey q (fst r) =? k) (allrows q ms).
+Definition rows_at_k (kf : Z -> Z) (q : query) (ms : list series) (k : Z) : list row :=
+  filter (fun r : row => kf (fst r) =? k) (allrows q ms).
+Definition rows_at (q : query) : list series -> Z -> list row := rows_at_k (bkey q) q.
 
-Lemma vfold_group : forall q aggs ms k,
-  vfold (rowop aggs) k (flat_map (raw_items q aggs) ms) =
-  if existsb (hvr aggs) (rows_at q ms k) then Some (colfold aggs (rows_at q ms k)) else None.
+Lemma vfold_group : forall kf q aggs ms k,
+  vfold (rowop aggs) k (flat_map (raw_items kf q aggs) ms) =
+  if existsb (hvr aggs) (rows_at_k kf q ms k) then Some (colfold aggs (rows_at_k kf q ms k)) else None.
 Proof. intros. rewrite raw_items_flat, vfold_raw. apply rows_total. Qed.
 
 (* ------------------------------------------------------------------------------------------------ *)
@@ -575,15 +576,17 @@ Proof.
   destruct bs as [|c bs]; cbn [map]; constructor. unfold key_lt. cbn [fst]. now inversion H1.
 Qed.
 
-Definition gkeys (q : query) (aggs : list aggcol) (ms : list series) : list Z :=
-  zkeys (map (fun r : row => bkey q (fst r)) (filter (hvr aggs) (allrows q ms))).
+Definition gkeys_k (kf : Z -> Z) (q : query) (aggs : list aggcol) (ms : list series) : list Z :=
+  zkeys (map (fun r : row => kf (fst r)) (filter (hvr aggs) (allrows q ms))).
+Definition gkeys (q : query) : list aggcol -> list series -> list Z := gkeys_k (bkey q) q.
 
-Definition canonp (q : query) (aggs : list aggcol) (ms : list series) : list (Z * prow) :=
-  map (fun b => (b, colfold aggs (rows_at q ms b))) (gkeys q aggs ms).
+Definition canonp_k (kf : Z -> Z) (q : query) (aggs : list aggcol) (ms : list series) : list (Z * prow) :=
+  map (fun b => (b, colfold aggs (rows_at_k kf q ms b))) (gkeys_k kf q aggs ms).
+Definition canonp (q : query) : list aggcol -> list series -> list (Z * prow) := canonp_k (bkey q) q.
 
-Lemma gkeys_mem : forall q aggs ms k, existsb (Z.eqb k) (gkeys q aggs ms) = existsb (hvr aggs) (rows_at q ms k).
+Lemma gkeys_mem : forall kf q aggs ms k, existsb (Z.eqb k) (gkeys_k kf q aggs ms) = existsb (hvr aggs) (rows_at_k kf q ms k).
 Proof.
-  intros. apply eq_iff_eq_true. rewrite !existsb_exists. unfold gkeys, rows_at. split.
+  intros. apply eq_iff_eq_true. rewrite !existsb_exists. unfold gkeys_k, rows_at_k. split.
   - intros [x [Hin Hx]]. apply Z.eqb_eq in Hx. subst x. apply zkeys_in, in_map_iff in Hin.
     destruct Hin as [r [Hk Hr]]. apply filter_In in Hr. destruct Hr as [Hr Hv].
     exists r. split; [|exact Hv]. apply filter_In. split; [exact Hr | now apply Z.eqb_eq].
@@ -592,10 +595,10 @@ Proof.
     apply filter_In. now split.
 Qed.
 
-Lemma vfold_canonp : forall q aggs ms k,
-  vfold (rowop aggs) k (canonp q aggs ms) = vfold (rowop aggs) k (flat_map (raw_items q aggs) ms).
+Lemma vfold_canonp : forall kf q aggs ms k,
+  vfold (rowop aggs) k (canonp_k kf q aggs ms) = vfold (rowop aggs) k (flat_map (raw_items kf q aggs) ms).
 Proof.
-  intros. unfold canonp. rewrite (vfold_map_keys (rowop aggs) (fun b => colfold aggs (rows_at q ms b))) by apply zkeys_sorted.
+  intros. unfold canonp_k. rewrite (vfold_map_keys (rowop aggs) (fun b => colfold aggs (rows_at_k kf q ms b))) by apply zkeys_sorted.
   rewrite gkeys_mem, vfold_group. reflexivity.
 Qed.
 
@@ -618,6 +621,7 @@ Lemma kmerge_k_flat : forall {A X} (f : X -> list (Z * A)) l, Permutation (kmerg
 Proof. intros. rewrite flat_map_concat_map. apply kmerge_k_perm. Qed.
 
 Section AggStage.
+  Variable kf : Z -> Z.
   Variable q : query.
   Variable aggs : list aggcol.
   Notation rop := (rowop aggs).
@@ -627,27 +631,27 @@ Section AggStage.
   Lemma kagg_vfold : forall k l, vfold rop k (kagg aggs l) = vfold rop k l.
   Proof. intros. apply vfold_agg_spec. exact ra. Qed.
 
-  Lemma series_partials_vfold : forall k s, vfold rop k (series_partials q aggs s) = vfold rop k (raw_items q aggs s).
+  Lemma series_partials_vfold : forall k s, vfold rop k (series_partials kf q aggs s) = vfold rop k (raw_items kf q aggs s).
   Proof. intros. unfold series_partials. rewrite kagg_vfold. apply vfold_perm; [exact ra | exact rc | apply ksort_perm]. Qed.
 
-  Lemma series_partials_ssorted : forall s, Sorted key_lt (series_partials q aggs s).
+  Lemma series_partials_ssorted : forall s, Sorted key_lt (series_partials kf q aggs s).
   Proof. intros. apply agg_spec_ssorted, ksort_sorted. Qed.
 
   Lemma reader_partials_vfold : forall k rd,
-    vfold rop k (reader_partials q aggs rd) = vfold rop k (flat_map (raw_items q aggs) rd).
+    vfold rop k (reader_partials kf q aggs rd) = vfold rop k (flat_map (raw_items kf q aggs) rd).
   Proof.
     intros. unfold reader_partials. rewrite kagg_vfold.
-    rewrite (vfold_perm rop ra rc k _ _ (kmerge_k_flat (series_partials q aggs) rd)).
+    rewrite (vfold_perm rop ra rc k _ _ (kmerge_k_flat (series_partials kf q aggs) rd)).
     apply vfold_flat_map; [exact ra|]. intros s. apply series_partials_vfold.
   Qed.
 
-  Lemma reader_partials_ssorted : forall rd, Sorted key_lt (reader_partials q aggs rd).
+  Lemma reader_partials_ssorted : forall rd, Sorted key_lt (reader_partials kf q aggs rd).
   Proof.
     intros. apply agg_spec_ssorted, kmerge_k_sorted. apply Forall_forall. intros l Hl.
     apply in_map_iff in Hl. destruct Hl as [s [<- _]]. apply ssorted_sorted, series_partials_ssorted.
   Qed.
 
-  Lemma merged_partials_sorted : forall parts, Sorted key_le (merged_partials q aggs parts).
+  Lemma merged_partials_sorted : forall parts, Sorted key_le (merged_partials kf q aggs parts).
   Proof.
     intros. apply kmerge_k_sorted. apply Forall_forall. intros l Hl.
     apply in_map_iff in Hl. destruct Hl as [rd [<- _]]. apply ssorted_sorted, reader_partials_ssorted.
@@ -660,22 +664,22 @@ Section AggStage.
   Qed.
 
   Lemma merged_partials_vfold : forall k parts,
-    vfold rop k (merged_partials q aggs parts) = vfold rop k (flat_map (raw_items q aggs) (concat parts)).
+    vfold rop k (merged_partials kf q aggs parts) = vfold rop k (flat_map (raw_items kf q aggs) (concat parts)).
   Proof.
     intros. unfold merged_partials.
-    rewrite (vfold_perm rop ra rc k _ _ (kmerge_k_flat (reader_partials q aggs) parts)).
+    rewrite (vfold_perm rop ra rc k _ _ (kmerge_k_flat (reader_partials kf q aggs) parts)).
     rewrite flat_map_concat.
     apply vfold_flat_map; [exact ra|]. intros rd. apply reader_partials_vfold.
   Qed.
 
   Theorem l2_partials_canon : forall parts ms sizes,
-    Permutation (concat parts) ms -> l2_partials q aggs parts sizes = canonp q aggs ms.
+    Permutation (concat parts) ms -> l2_partials_k kf q aggs parts sizes = canonp_k kf q aggs ms.
   Proof.
-    intros parts ms sizes P. unfold l2_partials, agg_stage. rewrite agg_chunking_invariant_lemma.
+    intros parts ms sizes P. unfold l2_partials_k, agg_stage. rewrite agg_chunking_invariant_lemma.
     apply (ssorted_unique rop).
     - apply agg_spec_ssorted, merged_partials_sorted.
     - apply map_keys_ssorted, zkeys_sorted.
-    - intros k. rewrite vfold_canonp. fold (kagg aggs (merged_partials q aggs parts)).
+    - intros k. rewrite vfold_canonp. fold (kagg aggs (merged_partials kf q aggs parts)).
       rewrite kagg_vfold, merged_partials_vfold.
       apply vfold_perm; [exact ra | exact rc |]. now apply Permutation_flat_map.
   Qed.
@@ -709,12 +713,12 @@ Section Prefill.
   Proof. intros. unfold bkey. now rewrite Hiv. Qed.
 
   Lemma rows_at_bucket : forall b, rows_at q ms b = filter (fun r : row => bucket i (fst r) =? b) (allrows q ms).
-  Proof. intros. unfold rows_at. apply filter_ext. intros r. now rewrite bkey_bucket. Qed.
+  Proof. intros. unfold rows_at, rows_at_k. apply filter_ext. intros r. now rewrite bkey_bucket. Qed.
 
   Lemma gkeys_prefill :
     gkeys q aggs ms = zkeys (flat_map (fun c : aggcol * list point => map (fun p => bucket i (fst p)) (snd c)) (agg_cols_of q aggs ms)).
   Proof.
-    unfold gkeys. apply zkeys_ext. intros k. rewrite in_map_iff, in_flat_map. split.
+    unfold gkeys, gkeys_k. apply zkeys_ext. intros k. rewrite in_map_iff, in_flat_map. split.
     - intros [r [Hk Hr]]. apply filter_In in Hr. destruct Hr as [Hr Hv].
       destruct (hvr_true aggs r Hv) as [a [v [Ha Hf]]].
       exists (a, points_of q (fld_of a) ms). split.
@@ -730,9 +734,10 @@ Section Prefill.
 
   Theorem finalize_canonp : finalize aggs (canonp q aggs ms) = prefill_rows i (agg_cols_of q aggs ms).
   Proof.
-    unfold finalize, canonp, prefill_rows. rewrite map_map, gkeys_prefill. apply map_ext. intros b.
+    unfold finalize, canonp, canonp_k, prefill_rows. rewrite map_map. fold (gkeys q aggs ms). rewrite gkeys_prefill.
+    apply map_ext. intros b.
     cbn [fst snd]. f_equal. rewrite fin_row_colfold. unfold agg_cols_of. rewrite map_map. apply map_ext. intros a.
-    cbn [fst snd]. fold (fn_of a). f_equal.
+    cbn [fst snd]. fold (fn_of a). f_equal. change (rows_at_k (bkey q) q ms b) with (rows_at q ms b).
     rewrite rows_at_bucket, points_of_rows. symmetry. apply (pts_filter_key (bucket i)).
   Qed.
 End Prefill.
@@ -756,12 +761,12 @@ Section NoInterval.
 
   Lemma rows_at_0 : rows_at q ms 0 = allrows q ms.
   Proof.
-    unfold rows_at, bkey. rewrite Hiv. cbn. induction (allrows q ms) as [|r l IH]; [reflexivity|]. cbn. now rewrite IH.
+    unfold rows_at, rows_at_k, bkey. rewrite Hiv. cbn. induction (allrows q ms) as [|r l IH]; [reflexivity|]. cbn. now rewrite IH.
   Qed.
 
   Lemma gkeys_0 : gkeys q aggs ms = if existsb (hvr aggs) (allrows q ms) then [0] else [].
   Proof.
-    unfold gkeys, bkey. rewrite Hiv. induction (allrows q ms) as [|r l IH]; [reflexivity|].
+    unfold gkeys, gkeys_k, bkey. rewrite Hiv. induction (allrows q ms) as [|r l IH]; [reflexivity|].
     cbn [filter existsb]. destruct (hvr aggs r); cbn [orb map zkeys fold_right]; [|exact IH].
     fold (zkeys (map (fun _ : row => 0) (filter (hvr aggs) l))). rewrite IH.
     destruct (existsb (hvr aggs) l); reflexivity.
@@ -965,9 +970,9 @@ Section Compose.
                             length (snd r) = length aggs) (finalize aggs (canonp q aggs ms)).
   Proof.
     intros Hi. assert (Hiv : (i =? 0) = false) by (apply Z.eqb_neq; lia).
-    apply Forall_forall. intros x Hx. unfold finalize, canonp in Hx. rewrite map_map in Hx.
+    apply Forall_forall. intros x Hx. unfold finalize, canonp, canonp_k in Hx. rewrite map_map in Hx.
     apply in_map_iff in Hx. destruct Hx as [b [<- Hb]]. cbn [fst snd].
-    unfold gkeys in Hb. apply zkeys_in, in_map_iff in Hb. destruct Hb as [r [Hk Hr]].
+    unfold gkeys_k in Hb. apply zkeys_in, in_map_iff in Hb. destruct Hb as [r [Hk Hr]].
     apply filter_In in Hr. destruct Hr as [Hr _]. apply allrows_in_range in Hr.
     unfold in_range in Hr. apply andb_true_iff in Hr. destruct Hr as [H1 H2]. apply Z.leb_le in H1, H2.
     rewrite (bkey_bucket q Hiv) in Hk. subst b. split; [|split].
@@ -995,13 +1000,14 @@ Section Compose.
     q_desc q = false -> 0 <= i -> Permutation (concat parts) ms ->
     l2_agg_group_asc q aggs parts sizes sizes2 = agg_group cur q aggs ms.
   Proof.
-    intros cur parts sizes sizes2 Hd Hi P. unfold l2_agg_group_asc. rewrite (l2_partials_canon q aggs parts ms sizes P).
+    intros cur parts sizes sizes2 Hd Hi P. unfold l2_agg_group_asc, l2_partials. rewrite (l2_partials_canon (bkey q) q aggs parts ms sizes P). fold (canonp q aggs ms).
     unfold agg_group. cbv zeta. destruct (i =? 0) eqn:E.
     - (* no GROUP BY time() *)
       assert (C : map (fun c : aggfn * nat * Z * list point => agg_cell (fst (fst (fst c))) (snd c)) (agg_cols_of q aggs ms) = cells0 q aggs ms).
       { unfold agg_cols_of, cells0. rewrite map_map. reflexivity. }
-      rewrite C, (cells0_null q aggs ms). unfold canonp. rewrite (gkeys_0 q aggs ms E).
+      rewrite C, (cells0_null q aggs ms). unfold canonp, canonp_k. fold (gkeys q aggs ms). rewrite (gkeys_0 q aggs ms E).
       destruct (existsb (hvr aggs) (allrows q ms)) eqn:Ex; cbn [negb map]; [|reflexivity].
+      change (rows_at_k (bkey q) q ms 0) with (rows_at q ms 0).
       rewrite (rows_at_0 q ms E), (fin_row_cells0 q aggs ms). f_equal. f_equal.
       (* the time column *)
       unfold l2_time0, agg_cols_of, colfold.
